@@ -203,6 +203,9 @@ func (g *gen) amount(avail *big.Int, unit *big.Int, allowNeg bool) *big.Int {
 		x.SetInt64(0)
 	case 1: // small
 		x.SetInt64(int64(1 + r.Intn(20)))
+		if avail.Sign() > 0 && avail.Cmp(big.NewInt(20)) < 0 && r.Chance(3, 4) {
+			x.SetInt64(1 + r.Int63n(avail.Int64()))
+		}
 	case 2: // the exact balance
 		x.Set(avail)
 	case 3:
@@ -302,8 +305,16 @@ func (g *gen) next() op {
 	case 1: // ERC20 -> coin (EVM-native pair)
 		o := op{Kind: "e2c", Direct: r.Chance(1, 5)}
 		o.C = []int{0, 0, 0, 0, 1, 1, 1, 2, 2, 2, 3, 9}[r.Intn(12)]
-		if !(o.C < nPair && w.enabled[o.C]) && r.Chance(1, 2) {
-			o.C = []int{0, 1}[r.Intn(2)]
+		if !(o.C < nPair && w.enabled[o.C]) && r.Chance(2, 3) {
+			var en []int
+			for c := 0; c < nPair; c++ {
+				if w.enabled[c] {
+					en = append(en, c)
+				}
+			}
+			if len(en) > 0 {
+				o.C = g.denomOf(en)
+			}
 		}
 		bal := func(a int) *big.Int {
 			if o.C < s.n {
@@ -422,6 +433,9 @@ func (g *gen) next() op {
 		o.D = r.Intn(nDenom)
 		o.I = g.holder(func(a int) *big.Int { return s.bal[a][o.D] })
 		o.R = g.anyAcc()
+		if o.R >= nUsers && r.Chance(1, 2) {
+			o.R = g.user()
+		}
 		o.X = g.amount(s.bal[o.I][o.D], big.NewInt(1), true).String()
 		return o
 	default: // governance changes the allow lists
@@ -430,6 +444,13 @@ func (g *gen) next() op {
 		o.Al = append([]bool(nil), w.allowed...)
 		if r.Chance(1, 2) {
 			c := r.Intn(nPair)
+			if o.En[c] && r.Chance(1, 2) { // lean towards enabling
+				for k := 0; k < nPair; k++ {
+					if !o.En[k] {
+						c = k
+					}
+				}
+			}
 			o.En[c] = !o.En[c]
 		} else {
 			d := []int{3, 4, 5, 0}[r.Pick(4, 4, 4, 1)]
